@@ -559,8 +559,16 @@ impl WebSocketContext {
                     self.set_additional(msg);
                     false
                 }
-                Err(err) => return Err(err),
-                Ok(_) => true,
+                Err(err) => {
+                    // The frame is in the write buffer but could not be sent: remember it so
+                    // that `read` retries, not only `write`/`flush`.
+                    self.unflushed_additional = true;
+                    return Err(err);
+                }
+                Ok(_) => {
+                    self.unflushed_additional = true;
+                    true
+                }
             }
         } else {
             self.unflushed_additional
